@@ -188,13 +188,13 @@ func start(newCmd func() *cobra.Command, args []string) (*run, error) {
 	case <-capCh:
 	case err := <-r.errCh:
 		return nil, fmt.Errorf("serve returned before building a server: %v", err)
-	case <-time.After(5 * time.Second):
-		return nil, fmt.Errorf("serve did not build a server within 5 s")
+	case <-time.After(60 * time.Second):
+		return nil, fmt.Errorf("serve did not build a server within 60 s")
 	}
 	capMu.Lock()
 	r.srv, r.conf = capSrv, capConf
 	capMu.Unlock()
-	deadline := time.Now().Add(5 * time.Second)
+	deadline := time.Now().Add(60 * time.Second)
 	for {
 		c, err := net.DialTimeout("tcp", fmt.Sprintf("127.0.0.1:%d", port), 200*time.Millisecond)
 		if err == nil {
@@ -207,7 +207,7 @@ func start(newCmd func() *cobra.Command, args []string) (*run, error) {
 		default:
 		}
 		if time.Now().After(deadline) {
-			return nil, fmt.Errorf("the listener did not come up within 5 s")
+			return nil, fmt.Errorf("the listener did not come up within 60 s")
 		}
 		time.Sleep(2 * time.Millisecond)
 	}
@@ -215,12 +215,19 @@ func start(newCmd func() *cobra.Command, args []string) (*run, error) {
 }
 
 // stop delivers a real SIGTERM and waits for run to return.
-func (r *run) stop() (err error, hung bool) {
+func (r *run) stop() (err error, hung bool) { return r.stopWithin(stopLimit) }
+
+// stopLimit: how long serve may take to return after SIGTERM before it counts as hanging. It is real time on a machine
+// that may be heavily loaded (a thorough run next to other jobs once took more than 8 s for a healthy shutdown: false
+// alarm 29), so the limit is generous; a healthy shutdown returns at once and only a genuine hang pays it.
+const stopLimit = 120 * time.Second
+
+func (r *run) stopWithin(d time.Duration) (err error, hung bool) {
 	_ = syscall.Kill(os.Getpid(), syscall.SIGTERM)
 	select {
 	case err = <-r.errCh:
 		return err, false
-	case <-time.After(8 * time.Second):
+	case <-time.After(d):
 		return nil, true
 	}
 }
@@ -361,7 +368,7 @@ func flagSpace(newCmd func() *cobra.Command, tier, base string, res *Result, add
 			res.Points++
 			probeFlags(r, store, dir, a, conf, args, res, add)
 			if err, hung := r.stop(); hung {
-				add(conf, args, "terminates", "termination-hangs", "serve did not return within 8 s after SIGTERM")
+				add(conf, args, "terminates", "termination-hangs", "serve did not return within 120 s after SIGTERM")
 				return
 			} else if err != nil {
 				add(conf, args, "terminates", "termination-error", "serve returned %v after SIGTERM", err)
@@ -657,7 +664,7 @@ func termination(newCmd func() *cobra.Command, base string, res *Result, add add
 		err, hung := r.stop()
 		res.Probes++
 		if hung {
-			add(label, args, "termination-clean", "termination-hangs", "serve did not return within 8 s after SIGTERM")
+			add(label, args, "termination-clean", "termination-hangs", "serve did not return within 120 s after SIGTERM")
 			return
 		}
 		if err != nil {
@@ -723,7 +730,7 @@ func termination(newCmd func() *cobra.Command, base string, res *Result, add add
 		err, hung := r.stop()
 		res.Probes++
 		if hung {
-			add(label, args, "termination-clean", "termination-hangs", "serve did not return within 8 s after SIGTERM")
+			add(label, args, "termination-clean", "termination-hangs", "serve did not return within 120 s after SIGTERM")
 			return
 		}
 		if err != nil {
